@@ -231,6 +231,13 @@ def to_z3(e, env):
         return z3.Implies(to_z3(e.args[0], env), to_z3(e.args[1], env))
     if isinstance(e, sp.floor):
         a = e.args[0]
+        num, den = sp.fraction(sp.together(a))
+        if den != 1 and num.is_integer and den.is_integer:
+            nz, dz = to_z3(num, env), to_z3(den, env)
+            if z3.is_int(nz) and z3.is_int(dz):
+                if den.is_positive is not True:
+                    env.side.append(dz > 0)      # floor semantics of z3 div hold for positive divisors only
+                return nz / dz
         az = to_z3(a, env)
         if z3.is_int(az):
             return az
